@@ -59,3 +59,15 @@ claim("C03",
   "Real files with real Merkle proofs, 2-6 provers joining in generated order, a generated subset (at generated list positions) stops proving, gauges of 1..1e15 ujkl, several reward blocks. At each reward block: prover lists must equal 'before minus those that missed' (the model knows every accepted proof height), burn counters rise by exactly the number of missed files, each counted prover's payout lies in [floor(R*c/N_all)-1, floor(R*c/N_counted)+1], payouts are pairwise proportional, uncounted accounts receive nothing, sum paid <= released. The skip/double-visit defect found this way is fixed in /repo (1f17aed0).",
   "The obligation rule (young, or last accepted proof in the current or previous file window) is the reading shared with C02; share denominators: both readings accepted; amounts <= 1e15.",
   "DESIGN.md section 4 C03")
+
+claim("C01",
+  "model-based stateful property test (rapid state machine) with an independent reference proof verifier; every MsgPostProof is classified valid/invalid by the reference and compared with the chain's answer and with a full before/after snapshot of all (account, file) prover states; reward-block payout oracle",
+  "Histories of honest and dishonest submissions drawn from nine mutation classes (incl. cross-index proofs with the challenge steered through the block-gas seed, proofs for other/unknown/full files, stale or wrong ToProve, garbage payloads) against 1-3 real files of up to 320 chunks, with funded gauges and reward blocks. An invalid submission must answer Success=false and change nothing for anybody; only a valid accepted proof may change the submitter's own listing/LastProven/ChunkToProve; everybody credited at a reward block must be listed on a file it has validly proven. Both defects found (prover added before verification; cross-index acceptance) are fixed in /repo (964795e4, f0e15f76).",
+  "The reference verifier (leaf sha256(decimal(i)||hex(item)), proof index == challenged index, sha3-512 unsalted tree) is the specification as read from the property; attestation refresh is covered by C14; fork mode without ante handler.",
+  "DESIGN.md section 4 C01")
+
+claim("C07",
+  "model-based stateful property test (rapid state machine): accounting invariant recomputed from the by-owner file index after every step",
+  "Histories of buy/upgrade/re-buy, plan-paid and pay-once posts (ordinary and boundary sizes x replication), same-block re-posts, deletes (own/foreign/unknown), real proofs, reward blocks that drop prover-less files and time jumps through plan expiry by 3 owners. After every step each plan's SpaceUsed must equal the summed footprint of the owner's live plan-paid files, stay within [0, SpaceAvailable], and a plan-paid post must have had a live plan with room. Five defects found (no return on delete/drop, negative sizes, double charge on re-post, int64 wrap in the room check) are fixed in /repo.",
+  "plan-paid == Expires <= 0 (handler's branch condition); the by-owner index is trusted here and cross-checked against the by-merkle index by C17.",
+  "DESIGN.md section 4 C07")
